@@ -76,6 +76,7 @@ def run_task(prog, tid, params, tier):
             L.append('    p.%s.push(r);' % ('answers' if i < n_an else 'additional_records'))
         L += ['    let service = %s;' % rs_name(m, pool, sc_['service']), '    let own = %s;' % rs_name(m, pool, sc_['own']),
               '    crate::sync_discovery::add_response_for_test(p, &service, &own, &mut mgr);',
+              '    let _ = crate::InstanceInformation::from_records(&service, recs.iter());',
               '    report(check_ingest(&mgr, &recs, &service, &own));', '}']
         return '\n'.join(L)
 
@@ -178,6 +179,7 @@ def run_task(prog, tid, params, tier):
         if not f_ing:
             raise Unsupported("add_response_to_resources (sync) not found")
         f_ing = f_ing[0]
+        f_from = inherent(prog, 'InstanceInformation', 'from_records')
 
         def run(I):
             I.hash_order_fixed = True
@@ -196,6 +198,10 @@ def run_task(prog, tid, params, tier):
             pkt = g.struct('Packet', header=hdr, questions=VecV(()), answers=VecV(an), name_servers=VecV(()), additional_records=VecV(ar))
             chan = I.new_ref(NONE, 'chan')
             I.call_function(f_ing, [pkt, I.new_ref(pool.name(sc['service']), 'svc'), I.new_ref(pool.name(sc['own']), 'own'), mgr, chan], {})
+            # what the listener does next for its on_discovery channel / get_known_services: turn the records of an instance
+            # into an InstanceInformation - with hostile (arbitrary-byte) instance labels this must not panic either
+            refs = [I.new_ref(r, 'seen%d' % k) for k, r in enumerate(an + ar)]
+            I.call_function(f_from, [I.new_ref(pool.name(sc['service']), 'svc2'), IterV('list', items=tuple(refs), i=0)], {})
             return I.load_ref(mgr)
 
         def on_path(res):
